@@ -465,7 +465,7 @@ func (f *file) ReadDir(n int) ([]hackpadfs.DirEntry, error) {
 		if start == total {
 			return nil, io.EOF
 		}
-		if start+int64(n) < total {
+		if int64(n) < total-start { // not start+n: a huge n must not overflow
 			end = start + int64(n)
 		}
 	}
